@@ -150,7 +150,7 @@ from typing import Optional, List, Any, Tuple
 
 from pydcop.algorithms import ComputationDef
 from pydcop.dcop.objects import Variable
-from pydcop.dcop.relations import assignment_cost, Constraint
+from pydcop.dcop.relations import assignment_cost, Constraint, optimal_cost_value
 from pydcop.infrastructure.computations import (
     VariableComputation,
     register,
@@ -201,7 +201,13 @@ class SyncBBComputation(VariableComputation):
 
         """
         # Only done by the first variable in the chain of variables
-        if self.previous_var is None:
+        if self.previous_var is None and self.next_var is None:
+            # A single variable: there is nobody to exchange a path with.
+            value, cost = optimal_cost_value(self.variable, self.mode)
+            self.value_selection(value, cost)
+            self.new_cycle()
+            self.finished()
+        elif self.previous_var is None:
             path = [(self.variable.name, self.variable.domain[0], 0)]
             ub = INFINITY if self.mode == "min" else -INFINITY
             self.logger.debug(
@@ -461,6 +467,9 @@ def get_next_assignment(
             if mode == "min" and (
                 candidate_cost >= upper_bound or ass_cost + elt_cost >= upper_bound
             ):
+                # This candidate is pruned, even if it was acceptable for the
+                # previous elements of the path.
+                found = None
                 break  # Try next value in domain.
             else:
                 found = candidate, candidate_cost  # Check for next elt in path.
